@@ -193,6 +193,8 @@ class G(object):
                             cell['c'] = [self.text()]
                     elif k < 0.18 and nested_ok and 'multi' not in cell:
                         cell['nested'] = self.tabular(0, nested_ok=False)
+                        if r.random() < 0.4:
+                            cell['c'] = []          # the cell begins with the nested table (a block-level element directly after a rule)
                     elif k < 0.26:
                         cell['group'] = True
                         if not cell['c']:
@@ -350,6 +352,8 @@ ADV_POOL = [
     ('<script>M</script>', '<script>M</script>'), ('M" onx="', 'M" onx="'), ("'M'", '\u2019M\u2019'), ('M\\&lt-width;', 'M&lt-width;'),
     ('<!--M', '<!\u2013M'), (']]>M', ']]>M'), ('M\u00e9\u03bb\u2014\u00df', 'M\u00e9\u03bb\u2014\u00df'), ('M<img src=x onerror=alert(1)>', 'M<img src=x onerror=alert(1)>'),
     ('M\\&\\#x3c;b\\&\\#x3e;', 'M&#x3c;b&#x3e;'), ('M>\\&<', 'M>&<'), ('M\\&quot;', 'M&quot;'), ('<a href="x">M</a>', '<a href="x">M</a>'),
+    # characters outside the Basic Multilingual Plane (an emoji, a mathematical letter, a CJK extension B ideograph)
+    ('M\U0001f600\U0001d538\U00020000', 'M\U0001f600\U0001d538\U00020000'),
 ]
 ADV_ON = [True]
 
